@@ -93,6 +93,19 @@ func (s *Sink) WaitCount(n int, timeout time.Duration) bool {
 // datagrams while the receive buffer has room, and the checks keep little in flight).
 func (s *Sink) WaitAll(n int) bool { return s.WaitCount(n, 30*time.Second) }
 
+// Pace is back-pressure for senders that emit tens of thousands of datagrams in one case: it waits
+// (at most 5 s) until all but `window` of the `sent` datagrams have been taken out of the socket.
+// The kernel drops UDP datagrams silently once the receive buffer is full, which on a machine busy
+// enough to starve the reader goroutine looks exactly like a lost batch.
+// It reports false when the datagrams did not show up in time (the caller then stops pacing: they
+// are not coming, and that is for the oracle to judge).
+func (s *Sink) Pace(sent, window int) bool {
+	if sent-s.Count() <= window {
+		return true
+	}
+	return s.WaitCount(sent-window, 5*time.Second)
+}
+
 // Settle waits until no new datagram has arrived for quiet (bounded by max)
 // and returns everything received so far.
 func (s *Sink) Settle(quiet, max time.Duration) [][]byte {
